@@ -1,9 +1,153 @@
 import WM.Proto
+import WM.Spec.EditDistance
+import WM.Model.Lev
 namespace WM.Drv.C19
-open WM.Proto
+open WM.Proto WM.Lev
 
-/-- Protocol handler of family `c19` (requests arrive without the family token). -/
+/-- A word is a list of code points `(97 98)`; `()` is the empty word. -/
+def word? (e : SExp) : Option (List Nat) := e.natList?
+
+def words? (e : SExp) : Option (List (List Nat)) := SExp.listOf? word? e
+
+def showWord (w : List Nat) : String := showNatList w
+def showWords (ws : List (List Nat)) : String := showList showWord ws
+
+def showErr : Err → String
+  | .fuel => "err:fuel"
+  | .indexError => "err:IndexError"
+  | .dpError => "err:dp"
+
+def showExcept {α} (f : α → String) : Except Err α → String
+  | .ok a => f a
+  | .error e => showErr e
+
+def showSt (s : St) : String := s!"({s.1} {s.2})"
+def showSSet (s : SSet) : String := showList showSt s
+
+def dist? : SExp → Option (List Nat → List Nat → Nat)
+  | .atom "lev" => some WM.Edit.lev
+  | .atom "osa" => some WM.Edit.osa
+  | _ => none
+
+def tr? : SExp → Option Bool
+  | .atom "lev" => some false
+  | .atom "osa" => some true
+  | _ => none
+
+/-- `within` for every `(d, p)` of a grid; the distances are computed once per term (the result
+    is `WM.Edit.within dist lex w d p` by definition of `within`). -/
+def withinGrid (dist : List Nat → List Nat → Nat) (lex : List (List Nat)) (w : List Nat)
+    (ds ps : List Nat) : List (List (List Nat)) :=
+  let dl := lex.map fun t => (t, dist t w)
+  ds.flatMap fun d => ps.map fun p =>
+    (dl.filter fun (t, k) => WM.Edit.sharePrefix p t w && decide (k ≤ d)).map (·.1)
+
+def showDfa (d : DFA) : String :=
+  let tr := showList (fun (x : SSet × Nat × SSet) => s!"({showSSet x.1} {x.2.1} {showSSet x.2.2})") d.trans
+  let df := showList (fun (x : SSet × SSet) => s!"({showSSet x.1} {showSSet x.2})") d.defaults
+  let fi := showList showSSet d.finals
+  s!"({showSSet d.initial} {tr} {df} {fi})"
+
 def handle : List SExp → String
+  | [.atom "spec", dn, a, b] =>
+    match dist? dn, word? a, word? b with
+    | some dist, some a, some b => toString (dist a b)
+    | _, _, _ => "bad-op"
+  | [.atom "dp", dn, a, b, lim] =>
+    match tr? dn, word? a, word? b, SExp.opt? SExp.nat? lim with
+    | some tr, some a, some b, some lim => showOpt toString (dp tr a b lim)
+    | _, _, _, _ => "bad-op"
+  | [.atom "within", dn, lex, w, d, p] =>
+    match dist? dn, words? lex, word? w, d.nat?, p.nat? with
+    | some dist, some lex, some w, some d, some p => showWords (WM.Edit.within dist lex w d p)
+    | _, _, _, _, _ => "bad-op"
+  | [.atom "within-grid", dn, lex, w, ds, ps] =>
+    match dist? dn, words? lex, word? w, ds.natList?, ps.natList? with
+    | some dist, some lex, some w, some ds, some ps => showList showWords (withinGrid dist lex w ds ps)
+    | _, _, _, _, _ => "bad-op"
+  | [.atom "dists", dn, lex, w] =>
+    match dist? dn, words? lex, word? w with
+    | some dist, some lex, some w => showNatList (lex.map fun t => dist t w)
+    | _, _, _ => "bad-op"
+  | [.atom "fuzzy-of", docs, terms] =>
+    -- documents (lists of terms) of one segment matched by the expansion `terms`
+    match SExp.listOf? words? docs, words? terms with
+    | some docs, some terms => showNatList (fuzzyDocsOf docs terms)
+    | _, _ => "bad-op"
+  | [.atom "fuzzy-of-grid", docs, termss] =>
+    match SExp.listOf? words? docs, SExp.listOf? words? termss with
+    | some docs, some termss => showList showNatList (termss.map (fuzzyDocsOf docs))
+    | _, _ => "bad-op"
+  | [.atom "suggest-of", terms, lex, freqs, limit, d] =>
+    -- `Corrector.suggest` on a given `terms_within` result; `freqs` is aligned with `lex`
+    match words? terms, words? lex, freqs.natList?, limit.nat?, d.nat? with
+    | some terms, some lex, some freqs, some limit, some d =>
+      let table := lex.zip freqs
+      let freq := fun (t : List Nat) => ((table.find? fun x => x.1 == t).map (·.2)).getD 0
+      showExcept showWords (suggest terms freq limit d)
+    | _, _, _, _, _ => "bad-op"
+  | [.atom "nfa-accept", w, k, p, us] =>
+    match word? w, k.nat?, p.nat?, words? us with
+    | some w, some k, some p, some us =>
+      let n := levenshteinAutomaton w k p
+      showList (fun u => showBool (n.accept u)) us
+    | _, _, _, _ => "bad-op"
+  | [.atom "dfa-accept", w, k, p, us] =>
+    match word? w, k.nat?, p.nat?, words? us with
+    | some w, some k, some p, some us =>
+      match (levenshteinAutomaton w k p).toDfa with
+      | none => "err:fuel"
+      | some d => showList (fun u => showBool (d.accept (some d.initial) u)) us
+    | _, _, _, _ => "bad-op"
+  | [.atom "dfa-dump", w, k, p] =>
+    match word? w, k.nat?, p.nat? with
+    | some w, some k, some p =>
+      match (levenshteinAutomaton w k p).toDfa with
+      | none => "err:fuel"
+      | some d => showDfa d
+    | _, _, _ => "bad-op"
+  | [.atom "nvs", w, k, p, us] =>
+    match word? w, k.nat?, p.nat?, words? us with
+    | some w, some k, some p, some us =>
+      match (levenshteinAutomaton w k p).toDfa with
+      | none => "err:fuel"
+      | some d => showList (fun u => showExcept (showOpt showWord) (d.nextValidString (levChain w k) u)) us
+    | _, _, _, _ => "bad-op"
+  | [.atom "tw-seg", lex, w, d, p] =>
+    match words? lex, word? w, d.nat?, p.nat? with
+    | some lex, some w, some d, some p => showExcept showWords (termsWithinSeg lex w d p)
+    | _, _, _, _ => "bad-op"
+  | [.atom "tw-seg-grid", lexs, w, ds, ps] =>
+    -- one automaton per (d, p), walked over every lexicon of `lexs`
+    match SExp.listOf? words? lexs, word? w, ds.natList?, ps.natList? with
+    | some lexs, some w, some ds, some ps =>
+      showList id (ds.flatMap fun d => ps.map fun p =>
+        match (levenshteinAutomaton w d p).toDfa with
+        | none => "err:fuel"
+        | some dfa => showList (fun lex => showExcept showWords (findMatches (dfa.nextValidString (levChain w d)) lex)) lexs)
+    | _, _, _, _ => "bad-op"
+  | [.atom "tw-base", lex, w, d, p] =>
+    match words? lex, word? w, d.nat?, p.nat? with
+    | some lex, some w, some d, some p => showExcept showWords (termsWithinBase lex w d p)
+    | _, _, _, _ => "bad-op"
+  | [.atom "tw-base-grid", lex, w, ds, ps] =>
+    match words? lex, word? w, ds.natList?, ps.natList? with
+    | some lex, some w, some ds, some ps =>
+      showList id (ds.flatMap fun d => ps.map fun p => showExcept showWords (termsWithinBase lex w d p))
+    | _, _, _, _ => "bad-op"
+  | [.atom "suggest", path, lex, freqs, w, limit, d, p] =>
+    -- `freqs` is aligned with `lex`; path = seg | base
+    match words? lex, freqs.natList?, word? w, limit.nat?, d.nat?, p.nat? with
+    | some lex, some freqs, some w, some limit, some d, some p =>
+      let table := lex.zip freqs
+      let freq := fun (t : List Nat) => ((table.find? fun x => x.1 == t).map (·.2)).getD 0
+      let tw := match path with
+        | .atom "seg" => termsWithinSeg lex w d p
+        | _ => termsWithinBase lex w d p
+      match tw with
+      | .error e => showErr e
+      | .ok terms => showExcept showWords (suggest terms freq limit d)
+    | _, _, _, _, _, _ => "bad-op"
   | _ => "bad-op"
 
 end WM.Drv.C19
